@@ -30,6 +30,29 @@ class Wall(Exception):
     pass
 
 
+INSTR = {"on": True, "errors": []}      # instrumentation switch (off when a case is re-run to classify an exception)
+
+
+def bound_values(orig, args, kwargs):
+    """the call's arguments in the order of the original's parameters, however they were passed (positionally / by keyword)"""
+    import inspect
+    ba = inspect.signature(orig).bind(*args, **kwargs)
+    ba.apply_defaults()
+    return list(ba.arguments.values())
+
+
+def recording(fn):
+    """run harness-side recording code; an exception in it is a harness error, never a property violation, and never disturbs
+    the implementation's own call"""
+    try:
+        fn()
+    except Wall:
+        raise
+    except Exception as e:  # noqa
+        import traceback
+        INSTR["errors"].append(f"{type(e).__name__}: {e} | " + traceback.format_exc(limit=3).replace("\n", " / ")[-300:])
+
+
 def _alarm(signum, frame):
     raise Wall()
 
@@ -63,21 +86,22 @@ class Spy:
         self.est, self.log, self.saved = est, [], []
 
     def _wrap(self, mod, name, kind, grouped):
-        if not hasattr(mod, name):
+        if not INSTR["on"] or not hasattr(mod, name):
             return
         orig = getattr(mod, name)
         spy = self
+        ntail = 1 if kind == "lin" else 2
 
-        def w(*a):
-            if grouped:
-                gs, mats, rest = a[0], a[1:-1 if kind == "lin" else -2], a[(-1 if kind == "lin" else -2):]
-            else:
-                gs, mats, rest = None, a[:-1 if kind == "lin" else -2], a[(-1 if kind == "lin" else -2):]
-            e = spy.est
-            spy.log.append({"grouped": grouped, "groups": jgroups(gs), "thr": float(rest[0]), "M": float(rest[1]) if len(rest) > 1 else None,
-                            "mats": [np.array(m, copy=True) for m in mats], "alpha": float(e.alpha),
-                            "lr": float(e.optimiser_.learning_rate), "t": getattr(e.optimiser_, "t", None)})
-            return orig(*a)
+        def w(*args, **kwargs):
+            def rec():
+                a = bound_values(orig, args, kwargs)
+                gs, mats, rest = (a[0], a[1:-ntail], a[-ntail:]) if grouped else (None, a[:-ntail], a[-ntail:])
+                e = spy.est
+                spy.log.append({"grouped": grouped, "groups": jgroups(gs), "thr": float(rest[0]), "M": float(rest[1]) if len(rest) > 1 else None,
+                                "mats": [np.array(m, copy=True) for m in mats], "alpha": float(e.alpha),
+                                "lr": float(e.optimiser_.learning_rate), "t": getattr(e.optimiser_, "t", None)})
+            recording(rec)
+            return orig(*args, **kwargs)
         self.saved.append((mod, name, orig))
         setattr(mod, name, w)
 
@@ -354,11 +378,18 @@ def stream_update(chk, i, rng):
     opt = est.optimiser_
     orig_up = opt.update_params
 
-    def patched(params, g):
+    def patched(*args, **kwargs):
         if mode == "real":
-            orig_up(params, g)
-        stepped["w"] = [np.array(p, copy=True) for p in params]
-        stepped["lr"] = float(opt.learning_rate)
+            orig_up(*args, **kwargs)
+
+        def rec():
+            # `weights` (closure) are the arrays the estimator trains in place, whatever names the call used
+            stepped["w"] = [np.array(p, copy=True) for p in weights]
+            stepped["lr"] = float(opt.learning_rate)
+        recording(rec)
+    if not INSTR["on"]:
+        est._update_weights(weights, grads)       # classification re-run: only whether the implementation itself raises
+        return
     opt.update_params = patched
     try:
         with Spy(est) as spy:
@@ -369,6 +400,8 @@ def stream_update(chk, i, rng):
     chk.dist["update:groups=" + case["gkind"]] += 1
     if edge:
         chk.dist["update:" + edge] += 1
+    if "w" not in stepped and INSTR["errors"]:
+        return                          # the recording itself failed: reported as a harness error by the case guard
     if "w" not in stepped:
         chk.fail("update:no-step", "_update_weights did not call optimiser_.update_params", replay, layer="L3")
         return
@@ -529,16 +562,20 @@ def stream_path(chk, i, rng):
     orig_cvs = BS.compute_val_score
     prng = np.random.default_rng(case["data_seed"] + 1)
 
-    def rec_cvs(clf, Xv, yv, batch_size, gem):
-        # called after the initial fit, at the start of every outer step and after every epoch: a snapshot point
-        snaps["k"] += 1
-        if snaps["k"] <= 40 or snaps["k"] % 7 == 0:
-            _, nun, _, _ = state_checks(chk, "path:step", clf, X, case, prng, dict(replay, snapshot=snaps["k"]), inert=(snaps["k"] <= 25))
-            snaps["nun_max"] = max(snaps["nun_max"], nun)
-            if 0 < nun:
-                snaps["nontrivial"] += 1
-        return orig_cvs(clf, Xv, yv, batch_size, gem)
-    BS.compute_val_score = rec_cvs
+    def rec_cvs(*args, **kwargs):
+        # called after the initial fit, at the start of every outer step and after every epoch: a snapshot point.
+        # The estimator is the one of the closure (path is running on it), whatever way the arguments are passed.
+        def rec():
+            snaps["k"] += 1
+            if snaps["k"] <= 40 or snaps["k"] % 7 == 0:
+                _, nun, _, _ = state_checks(chk, "path:step", est, X, case, prng, dict(replay, snapshot=snaps["k"]), inert=(snaps["k"] <= 25))
+                snaps["nun_max"] = max(snaps["nun_max"], nun)
+                if 0 < nun:
+                    snaps["nontrivial"] += 1
+        recording(rec)
+        return orig_cvs(*args, **kwargs)
+    if INSTR["on"]:
+        BS.compute_val_score = rec_cvs
     signal.signal(signal.SIGALRM, _alarm)
     signal.alarm(10)
     timed_out = False
@@ -769,6 +806,34 @@ def stream_zerocol(chk, i, rng):
     chk.count(("zerocol", name, kw["alpha"], kw["solver"], tuple(sel)) if nun > 0 else None)
 
 
+def guarded(name, fn):
+    """An exception escaping a case is the implementation's only if the same case, re-run WITHOUT any instrumentation, raises
+    too; otherwise it is reported under a harness-error key (a defect of this harness, not of the property).  Exceptions caught
+    inside recording code are reported the same way."""
+    def run(chk, i, rng):
+        INSTR["errors"] = []
+        ev = chk.evaluations
+        try:
+            fn(chk, i, rng)
+        except Exception as e:  # noqa
+            first = f"{type(e).__name__}: {e}"
+            INSTR["on"] = False
+            try:
+                nf = len(chk.failures)
+                fn(chk, i, chk.rng(name, i))
+                del chk.failures[nf:]
+            except Exception:
+                raise                      # the implementation itself raises: core reports <stream>:exception:<type>
+            finally:
+                INSTR["on"] = True
+                chk.evaluations = max(ev, chk.evaluations - 1)
+            chk.fail(f"harness-error:{name}:{type(e).__name__}", f"the harness (not the implementation) raised {first}; the same case without instrumentation runs", {}, layer="harness")
+            return
+        if INSTR["errors"]:
+            chk.fail(f"harness-error:{name}:recording", "recording code of the harness raised: " + INSTR["errors"][0], {}, layer="harness")
+    return run
+
+
 STREAMS = {"zerocol": (stream_zerocol, 100, 1500), "groups": (stream_groups, 600, 6000), "update": (stream_update, 900, 12000),
            "fit": (stream_fit, 660, 9000), "path": (stream_path, 80, 1000),
            "refit": (stream_refit, 200, 3000)}
@@ -787,14 +852,14 @@ def main():
         st, case = rp["input"].get("stream"), rp["input"].get("case")
         chk.seed = rp.get("seed", chk.seed)
         if st in STREAMS:
-            chk.run_stream(st, STREAMS[st][0], 0, only=case)
+            chk.run_stream(st, guarded(st, STREAMS[st][0]), 0, only=case)
     else:
         for name, (fn, q, th) in STREAMS.items():
             cnt = q if chk.tier == "quick" else th
             if chk.l1_broken:
                 cnt *= 3
             t0 = __import__("time").time()
-            chk.run_stream(name, fn, cnt)
+            chk.run_stream(name, guarded(name, fn), cnt)
             chk.dist[f"wall_s:{name}"] = round(__import__("time").time() - t0, 1)
     unsel = sum(v for k, v in chk.dist.items() if k in ("fit:unselected=some", "fit:unselected=all"))
     chk.notes.append(f"fits with at least one unselected feature: {unsel}; path snapshots with unselected features: {chk.dist.get('path:snapshots-with-unselected', 0)} of {chk.dist.get('path:snapshots', 0)}")
